@@ -93,9 +93,18 @@ namespace bloch::compiler {
             int depth = 0;
             size_t j = i + 1;
             while (j < m_tokens.size()) {
-                if (m_tokens[j].type == TokenType::Less)
+                const TokenType t = m_tokens[j].type;
+                // A type argument list never contains these: the '<' was a comparison, and the
+                // matching-looking '>' further on belongs to another expression or statement.
+                if (t == TokenType::Semicolon || t == TokenType::LBrace || t == TokenType::RBrace ||
+                    t == TokenType::Question || t == TokenType::Colon || t == TokenType::Equals ||
+                    t == TokenType::EqualEqual || t == TokenType::BangEqual ||
+                    t == TokenType::AmpersandAmpersand || t == TokenType::PipePipe ||
+                    t == TokenType::Eof)
+                    return;
+                if (t == TokenType::Less)
                     depth++;
-                else if (m_tokens[j].type == TokenType::Greater) {
+                else if (t == TokenType::Greater) {
                     depth--;
                     if (depth == 0) {
                         i = j;
